@@ -11,7 +11,7 @@ from symgeo import refgeo as R
 EVIDENCE = {
     "functions": ["utils.math.det", "adjugate", "_minor_indices", "inv", "is_multiple", "hat_matrix", "roots", "matmul", "matvec", "outer",
                   "null_space", "orth", "base.TensorDiagram.add_edge/calculate (adjugate's epsilon diagram)"],
-    "bounds": "matrix size n = 2..5; batch 1, 2 and 64 (both sides of the size switch) with 2 fully symbolic matrices in the batch and the rest "
+    "bounds": "is_multiple also along leading (non-trailing) axes, int and tuple; matrix size n = 2..5; batch 1, 2 and 64 (both sides of the size switch) with 2 fully symbolic matrices in the batch and the rest "
               "seeded integer matrices; real and complex (pairs) entries; polynomials of degree 1..3 with free real coefficients; is_multiple on "
               "vectors of length 2..4 and 2x2 / 3x3 blocks, axis None / int / tuple",
     "outside": "np.linalg.det / np.linalg.inv themselves (contract stubs: exact determinant / inverse), LAPACK svd (contract stub), np.roots for degree > 3, "
@@ -335,7 +335,8 @@ def cases(tier, seed):
         add(f"inv4_b64_{t}", mk_inv(4, 64, cplx), tiers=("thorough",))
         add(f"inv3_b1_{t}", mk_inv(3, 1, cplx), tiers=("thorough",))
     for shape, axis, tg in (((2,), None, "v2_none"), ((3,), None, "v3_none"), ((3,), -1, "v3_m1"), ((4,), 0, "v4_0"),
-                            ((2, 3), -1, "c2v3_m1"), ((2, 2), (-2, -1), "m22_tuple"), ((2, 3), (1,), "c2v3_tuple1")):
+                            ((2, 3), -1, "c2v3_m1"), ((2, 2), (-2, -1), "m22_tuple"), ((2, 3), (1,), "c2v3_tuple1"),
+                            ((2, 3), 0, "v2c3_axis0"), ((2, 3), (0,), "v2c3_tuple0"), ((2, 1, 3), (0, 1), "m21c3_leading_tuple")):
         add(f"is_multiple_{tg}_r", mk_is_multiple(shape, axis, False), max_paths=3000)
     add("is_multiple_v3_none_c", mk_is_multiple((3,), None, True), tiers=("thorough",), max_paths=4000)
     add("is_multiple_m33_tuple_r", mk_is_multiple((3, 3), (-2, -1), False), tiers=("thorough",), max_paths=20000)
